@@ -447,3 +447,34 @@ Proof.
   split; [exact E|]. split; [exact Ev|]. split; [lia|].
   intros Hf. destruct Ht as [[_ Hn]|[Ht _]]; [exact Hn|]. rewrite Ht in Hf. discriminate.
 Qed.
+
+(* a truncated page is never empty-handed: it holds at least one entry, and its markers name the
+   last entry it holds - the pair a client goes on from *)
+Lemma vpage_truncated_names_last pre delim km vm mk objs :
+  1 <= mk -> vl_truncated (vpage pre delim mk objs km vm) = true ->
+  exists l e, vl_entries (vpage pre delim mk objs km vm) = l ++ [e] /\
+    vl_next_key (vpage pre delim mk objs km vm) = ve_key e /\
+    vl_next_vid (vpage pre delim mk objs km vm) = ve_vid e.
+Proof.
+  intros H1 Ht. unfold vpage in *.
+  destruct (scan_page pre delim km vm mk H1 (match km with [] => objs | _ => sm_seek km objs end) 0 [] [])
+    as (l1 & l2 & _ & Ev & _ & Hc); [lia|].
+  destruct Hc as [[Hf _]|[_ (l & e & El & Hk & Hv)]]; [rewrite Hf in Ht; discriminate|].
+  exists l, e. rewrite Ev, El. cbn [app]. auto.
+Qed.
+
+(* a key marker behind every key of the bucket: the seek finds nothing, the page is empty and final *)
+Lemma sm_seek_behind {V} (k : list N) (m : list (list N * V)) :
+  (forall kv, In kv m -> bltb (fst kv) k = true) -> sm_seek k m = [].
+Proof.
+  induction m as [|[k' v'] m IH]; intros H; cbn [sm_seek]; [reflexivity|].
+  pose proof (H (k', v') (or_introl eq_refl)) as Hk. cbn [fst] in Hk. rewrite Hk. apply IH. intros kv Hi. apply H. right. exact Hi.
+Qed.
+
+Lemma vpage_marker_behind_every_key pre delim km vm mk objs :
+  km <> [] -> (forall kv, In kv objs -> bltb (fst kv) km = true) ->
+  vl_entries (vpage pre delim mk objs km vm) = [] /\ vl_truncated (vpage pre delim mk objs km vm) = false.
+Proof.
+  intros Hk Hb. unfold vpage. destruct km as [|c km']; [contradiction|].
+  rewrite (sm_seek_behind (c :: km') objs Hb). cbn. auto.
+Qed.
